@@ -31,6 +31,10 @@ CHECKS = {
          "Keys/Values/iterator/Each/ToJSON member order of LinkedHashMap and LinkedHashSet equal the reference 'order of insertion since last absent' after every step. " + DEGENERATE, "4 C09"),
  "C10": ("exploration", "seeded history simulation vs bijection reference model with eviction",
          "Get/GetKey consistency in both directions over the whole key and value tables, no shared value, Size=len(Keys)=len(Values) and equality with the eviction model after every step, value tables small enough to force every collision kind, coarsened key and value comparators. " + DEGENERATE, "4 C10"),
+ "C11": ("exploration", "deterministic simulation of the persistence boundary: checkpoint, crash-restart into a fresh container, forked drains (durability round trip)",
+         "All 21 kinds under seeded histories with checkpoint and crash-restart as generated operations: at every checkpoint ToJSON must be valid JSON of the right top-level kind and the same document (token sequence; multiset for hash kinds) as json.Marshal(container); at every restart the document is reloaded (FromJSON / UnmarshalJSON / json.Unmarshal) into a fresh container of the same configuration which must equal the model and the live container (size, content, order) and drain (Pop/Dequeue) like the live one; the run then continues on the restarted container. Ring capacities 1-9 incl. wrapped and partial states, B-tree orders, int and string keys, values textually equal to keys. Sampled.", "4 C11"),
+ "C12": ("fault_enumeration", "deterministic simulation with fault injection on the snapshot store (14 fault kinds on the bytes between ToJSON and FromJSON), thorough tier enumerates every truncation offset",
+         "Loads onto live containers with arbitrary prior content of bytes that are intact, stale (lost write), of the wrong document kind, torn, bit-flipped, structurally overwritten, span-dropped/duplicated/swapped, garbage-appended, zero-filled, wrongly typed at an element, duplicated, re-encoded (whitespace, \\u escapes) or partially-structured. Error => observable state (all observers + ToJSON) identical to before; success => content equals what a reference decoder (encoding/json into plain Go values + the kind's normalisation) says the bytes denote, success on invalid JSON is a violation; afterwards the run continues under the C01-C06/C09/C10/C15 oracles. The thorough tier additionally sweeps every truncation offset of a snapshot (fault enumeration); everything else is sampled.", "4 C12, 3.5"),
  "C13": ("exploration", "seeded history simulation of two sets vs set-algebra reference model, independence probes by mutation",
          "Pairs of sets of the same kind built by seeded histories (free, disjoint, nested, equal, one empty, either larger, same object as both operands); members of Intersection/Union/Difference are compared with the model, operands must be observably unchanged, then result, a and b are mutated in turn and the others must not move; TreeSet results must stay ascending under the operands' comparator after further Adds. " + DEGENERATE, "4 C13"),
  "C14": ("exploration", "seeded history simulation; callback families; results wrapped as subjects and judged by the model oracles",
@@ -39,6 +43,10 @@ CHECKS = {
          "Empty/Size/len(Values)/len(Keys)/String-name agreement after every step on all 21 containers; Clear at a seeded point, then the same continuation is applied to the cleared container and to a freshly constructed one and all observers including ToJSON must agree after every step. " + DEGENERATE, "4 C15"),
  "C16": ("exploration", "deterministic simulation with fault injection: the interfering caller (scribble on returned and passed slices)",
          "The injected fault is a caller that keeps every slice it received from Values()/Keys() and every slice it passed to constructors and Add/Append/Prepend/Insert/Push/Remove, and at seeded moments overwrites them and appends within spare capacity; the container must stay equal to its model, earlier snapshots must not move under later mutations, GetSortedValues/GetSortedValuesFunc must return the sorted content and leave the container (including a heap's raw layout) unchanged. Sampled histories, all 21 kinds.", "4 C16"),
+ "C17": ("exploration", "deterministic simulation of a hostile caller: every exported operation with unconstrained arguments and faulted bytes; monitors for panic, termination in simulated steps, and fd 1/2 growth",
+         "Every exported operation of all 21 containers and 18 iterators (accessors only after a successful move) with arguments from {MinInt, -2^31, -1, 0, size+-1, 2^31, MaxInt}, absent keys, empty and long variadics, empty containers, FromJSON of faulted and random bytes. A panic raised inside the library is a violation; an operation passing more than 5e7 yield sites is declared non-terminating (deterministic, replayable); file descriptors 1 and 2 are redirected to worker-owned files whose size is checked after every operation; Go fatal errors are attributed via a start marker and confirmed in a fresh process. Sizes bounded at 256. Sampled.", "4 C17"),
+ "C18": ("exploration", "deterministic simulation: seeded scheduler over go/ast-inserted yield sites, one reader task at a time, Go race detector with the scheduler's handoffs hidden (RaceDisable), sequential reference results, fingerprint-triggered amplification",
+         "All 21 kinds in states reached by seeded histories; epochs of an exclusive write phase and a read phase with 2-4 reader tasks running scripts from the full read-only catalogue. Every interleaving decision (every library block is a preemption point) comes from the plan, so a run replays exactly. Oracles: (i) the race detector, which sees the readers as unsynchronised because the handoff synchronisation is hidden from it, reports any write by a reader to memory another reader touches regardless of the interleaving that happened; (ii) every concurrent result equals the result of the same call executed alone; (iii) observable state unchanged by the phase; (iv) a read call that changes the memory image (reflect+unsafe walk) triggers an amplification run of that call on two tasks at every-yield switching. Sampled schedules, happens-before detector.", "4 C18, 3.3"),
 }
 
 NOTE = ("Trusted: Go toolchain and encoding/json; the go/ast instrumentation of the scratch copy (selftest transparency); the reference models and "
